@@ -440,8 +440,9 @@ class C17(Check):
     obligations = [("filter", "Filter", "filter_relaxed"), ("filter", "Filter", "filter_none_id"), ("filter", "Filter", "filter_lt_ok"), ("filter", "TokProof", "start_tag_origin"),
                    ("filter", "TokProof", "no_rejected_start"), ("filter", "TokProof", "prefix_closed_names"), ("main", "C17doc", "C17_only_lt_escaped"),
                    ("main", "C17tags", "C17_no_rejected_start_doc_partial"), ("main", "C17tags", "C17_no_rejected_start_renderDoc_partial"),
-                   ("main", "C17tags", "C17_no_rejected_start_doc_statement_false"), ("main", "C17exact", "chkB_exact"), ("main", "C17exact", "chkB_setP")]
-    assumptions = ["first clause proved for whole documents on the renderer model (C17_only_lt_escaped); second clause proved for whole documents (C17_no_rejected_start_doc_partial: the tokenizer fragment sees no rejected start tag in the renderer's whole output) for prefix-closed predicates under the boolean side condition chkB on the tree (raw-HTML and verbatim leaves do not end inside a tag name that the following output continues); the side condition is exact (chkB_exact), independent of the predicate (chkB_setP), is evaluated on the implementation's own tree in every run, and without it the statement is false for arbitrary trees (C17_no_rejected_start_doc_statement_false: two adjacent raw nodes '<scr' 'ipt>'); that every parser output satisfies it is not proved; second clause also proved for filterRaw output on one fragment (no_rejected_start); the oracle uses golang.org/x/net/html's tokenizer on the implementation's output"]
+                   ("main", "C17tags", "C17_no_rejected_start_doc_statement_false"), ("main", "C17exact", "chkB_exact"), ("main", "C17exact", "chkB_setP"),
+                   ("main", "ChkDocAll2", "C17_no_rejected_start_renderDoc"), ("main", "ChkDocAll2", "chkDoc_all"), ("main", "ChkF7", "entryBounds_all")]
+    assumptions = ["second clause proved for every input with no side condition (ChkDocAll2.C17_no_rejected_start_renderDoc: for every configuration with a tag filter whose predicate is prefix closed and every input, the WHATWG data-state tokenizer fragment sees no rejected start tag in renderDoc's whole output; chkDoc_all: the side condition chkB holds of every parser output)", "first clause proved for whole documents on the renderer model (C17_only_lt_escaped); second clause also proved for arbitrary trees (C17_no_rejected_start_doc_partial: the tokenizer fragment sees no rejected start tag in the renderer's whole output) for prefix-closed predicates under the boolean side condition chkB on the tree (raw-HTML and verbatim leaves do not end inside a tag name that the following output continues); the side condition is exact (chkB_exact), independent of the predicate (chkB_setP), is evaluated on the implementation's own tree in every run, and without it the statement is false for arbitrary trees (C17_no_rejected_start_doc_statement_false: two adjacent raw nodes '<scr' 'ipt>'); that every parser output satisfies it is now proved (chkDoc_all); second clause also proved for filterRaw output on one fragment (no_rejected_start); the oracle uses golang.org/x/net/html's tokenizer on the implementation's output"]
 
     def jobs(self, seed, tier):
         ds = raw_docs(seed, size(tier, 2500, 100000)) + docs(seed, tier, quick=1000, thorough=30000)
